@@ -171,6 +171,7 @@ impl Check for C08 {
         cfg.allow = cases::gen_allow(&mut rng, 80);
         cfg.max_size = if gi.class == "valid" { MaxSz::Default } else { MaxSz::Limit(1 << 20) };
         cfg.capacity = io::gen_capacity(&mut rng, gi.bytes.len());
+        crate::harness::gen_cfg_history(&mut rng, &mut cfg);
         let script = io::gen_rscript(&mut rng, gi.bytes.len(), &[]);
         let sweep = rng.chance(1, 3);
         // buffered set: drawn from the masters of the specification, biased to those in the input
